@@ -7,7 +7,9 @@
         pts:   - | point;point;...     point = name=int,name=int,...#x<hex>/x<hex>/...   (# part: one token per extra dim, - = none)
         vlrs:  - | T:x<hex>|F:x<hex>|...      (T = ExtraBytesVlr)
         evlrs: none | some:- | some:x<hex>|x<hex>
-     -> ok <M.m> <fmt> <edims> <pts> <vlrs> <evlrs> <source unchanged T/F>  |  err <E> *)
+     -> ok <M.m> <fmt> <edims> <pts> <vlrs> <evlrs> <source unchanged T/F> <names>  |  err <E>
+        names: every name the point format of the result lists, with what asking for it by name finds:
+               name=S (a standard dimension) | name=E:x<descriptor hex> (that extra dimension) | name=! (nothing), joined by | *)
 open Model
 
 let rec pos_of_int n = if n = 1 then XH else if n land 1 = 0 then XO (pos_of_int (n lsr 1)) else XI (pos_of_int (n lsr 1))
@@ -85,6 +87,8 @@ let vlr_of_tok t = match String.split_on_char ':' t with
 let tok_of_vlrs l = if l = [] then "-" else String.concat "|" (List.map (fun (k, b) -> tok_of_bool k ^ ":" ^ tok_of_bytes b) l)
 let evlrs_of_tok t = if t = "none" then None else
   Some (List.map bytes_of_tok (split_on '|' (String.sub t 5 (String.length t - 5))))
+let tok_of_resolutions l = if l = [] then "-" else String.concat "|" (List.map (fun (n, r) -> string_of_coq n ^ "=" ^
+  (match r with None -> "!" | Some RStd -> "S" | Some (RExt e) -> "E:" ^ tok_of_bytes e.ed_desc)) l)
 let tok_of_evlrs = function None -> "none" | Some l -> "some:" ^ (if l = [] then "-" else String.concat "|" (List.map tok_of_bytes l))
 
 let dispatch cmd a =
@@ -104,7 +108,7 @@ let dispatch cmd a =
     (match r with
      | Err e -> "err " ^ err_name e
      | Ok l' -> String.concat " " ["ok"; tok_of_ver l'.l_ver; string_of_z l'.l_fmt; tok_of_edims l'.l_edims;
-                                   tok_of_points l'.l_pts; tok_of_vlrs l'.l_vlrs; tok_of_evlrs l'.l_evlrs; tok_of_bool (src = l)])
+                                   tok_of_points l'.l_pts; tok_of_vlrs l'.l_vlrs; tok_of_evlrs l'.l_evlrs; tok_of_bool (src = l); tok_of_resolutions (resolutions l')])
   | _ -> "unknown-command " ^ cmd
 
 let () =
